@@ -537,7 +537,10 @@ impl Engine for E5 {
                 match prog.weighted(&[70, w_flush, if focus == "C14" { 8 } else { 0 }, 6]) {
                     0 => {
                         let min = if via_client { 5 } else { 0 };
-                        let len = if buffered {
+                        let len = if buffered && sink == SinkKind::BufUdp && focus == "C13" && prog.chance(1, 120) {
+                            // beyond the UDP datagram limit through the buffered sink's bypass path
+                            *prog.pick(&[65_507usize, 65_508, 66_000])
+                        } else if buffered {
                             match prog.weighted(&[40, 15, 15, 10, 10, 10]) {
                                 0 => 1 + prog.usize_below(capv.clamp(1, 20)),
                                 1 => capv.saturating_sub(1),
